@@ -307,13 +307,12 @@ class Lemma:
         from .smt import Obligation
         out = []
         smt.reset_fresh()
-        if self.direct is not None:
-            hy, goal = self.direct()
-            out.append(Obligation(f'lemma::{self.name}', list(hy), goal))
-        if self.base is not None:
-            hy, goal = self.base()
-            out.append(Obligation(f'lemma::{self.name}.base', list(hy), goal))
-        if self.step is not None:
-            hy, goal = self.step()
-            out.append(Obligation(f'lemma::{self.name}.step', list(hy), goal))
+        import z3 as _z3
+        for tag, mk in (('', self.direct), ('.base', self.base), ('.step', self.step)):
+            if mk is None:
+                continue
+            hy, goal = mk()
+            out.append(Obligation(f'lemma::{self.name}{tag}', list(hy), goal))
+            # vacuity guard: the hypotheses of a lemma must be satisfiable
+            out.append(Obligation(f'lemma::cover.{self.name}{tag}', list(hy), _z3.BoolVal(True), expect='sat'))
         return out
